@@ -310,4 +310,64 @@ theorem cross_levels {c : Ctx} (D : Dom c) {db0 : List Nat} {e1 e2 : Entry}
     have := dbl_ge_two (v := c.start) hz1 hz2 hz12 ⟨hinc hkz1, h.symm⟩ ⟨hinc k2, by rw [b2, hb2]⟩
     omega
 
+/-- **no duplicates**: on a prepared component without ambiguous atoms any two complete paths (at different
+    positions of the sequence) give some skeleton bond different orders -/
+theorem searchRaw_nodup {rings : Adj} (G : GraphOK rings) (db0 : List Nat) (limit : Nat) :
+    (searchRaw rings db0 [] limit).found.Pairwise Differ := by
+  unfold searchRaw
+  split
+  · simp
+  · rename_i c levels hinit
+    have IO := initial_ok G hinit
+    have Gc : GraphOK c.rings := IO.hr ▸ G
+    have facts : ∀ l ∈ levels, ∃ e0, l = [e0] ∧ StartOK c db0 (pe e0) ∧ e0.atom ∈ nb c c.start ∧
+        Dom c ∧ Dom2 c ∧ (e0.bond = 1 ∨ e0.bond = 2) ∧ (e0.bond = 2 → c.db.contains e0.atom = false) := by
+      intro l hl
+      obtain ⟨e0, rfl, SO, hf, hb, hdb⟩ := IO.lv l hl
+      have hstart : nbr c.rings c.start ≠ [] := List.ne_nil_of_mem hf
+      exact ⟨e0, rfl, SO, hf, dom_of Gc IO.pyr hstart, dom2_of Gc IO.size, hb, hdb⟩
+    apply seqBranches_pairwise
+    · intro l hl lim
+      obtain ⟨e0, rfl, SO, hf, D, D2, hb, hdb⟩ := facts l hl
+      exact (explore_nodup D D2 SO hf hb hdb lim).2
+    · have hmem : levels.Pairwise fun l l' => l ∈ levels ∧ l' ∈ levels := by
+        rw [List.pairwise_iff_forall_sublist]
+        intro a b hab
+        exact ⟨hab.subset (by simp), hab.subset (by simp)⟩
+      refine (IO.cross.and hmem).imp ?_
+      rintro l l' ⟨⟨hs, hx⟩, hl, hl'⟩ lim lim' p hp q hq
+      obtain ⟨e1, rfl, S1, hf1, D, D2, hb1, hdb1⟩ := facts l hl
+      obtain ⟨e2, rfl, S2, hf2, -, -, hb2, hdb2⟩ := facts l' hl'
+      obtain ⟨hne, hbb⟩ := hx e1 e2 rfl rfl
+      exact cross_levels D S1 S2 hne hf1 hf2 hbb hs
+        (explore_sound D D2 S1 hf1 hb1 hdb1 lim p hp) (explore_sound D D2 S2 hf2 hb2 hdb2 lim' q hq)
+        ((explore_nodup D D2 S1 hf1 hb1 hdb1 lim).1 p hp) ((explore_nodup D D2 S2 hf2 hb2 hdb2 lim').1 q hq)
+
+/-- without ambiguous atoms the buffer is never used: the yields are the complete paths, in order -/
+theorem component_yields_eq (rings : Adj) (db : List Nat) (buf limit : Nat) :
+    (kekuleComponent rings db [] buf limit).1 = (searchRaw rings db [] limit).found := by
+  have h : ∀ (ps : List Path) (b : Buf), b.held = [] → feedAll [] b ps = (b, ps) := by
+    intro ps
+    induction ps with
+    | nil => intro b _; rfl
+    | cons p ps ih =>
+      intro b hb
+      simp only [feedAll, feed, List.isEmpty_nil, Bool.not_true, Bool.false_and, Bool.false_eq_true, if_false]
+      rw [ih b hb]
+      rfl
+  unfold kekuleComponent
+  simp only [h _ ⟨buf, []⟩ rfl]
+  split
+  · rfl
+  · split
+    · rfl
+    · split
+      · rfl
+      · simp
+
+theorem component_nodup {rings : Adj} (G : GraphOK rings) (db0 : List Nat) (buf limit : Nat) :
+    (kekuleComponent rings db0 [] buf limit).1.Pairwise Differ := by
+  rw [component_yields_eq]
+  exact searchRaw_nodup G db0 limit
+
 end ChythonModel.Proofs.C05S
